@@ -523,14 +523,14 @@ Qed.
 Lemma whitelist_clean_sim b st st' a : Sim b st st' -> Sim b (whitelist_clean st a) (whitelist_clean st' a).
 Proof. intros []. constructor; simpl; auto; congruence. Qed.
 
-Lemma mg_deploy_sim b st st' a : Sim b st st' -> SimO b (mg_deploy st a) (mg_deploy st' a).
+Lemma mg_deploy_sim b st st' a m : Sim b st st' -> SimO b (mg_deploy st a m) (mg_deploy st' a m).
 Proof.
   intros S. unfold mg_deploy. rewrite (is_blocked_sim _ _ _ _ S), (contract_of_sim _ _ _ a S), (sim_next _ _ _ S), (sim_ids _ _ _ S).
   repeat match goal with |- context [if ?c then None else _] => destruct c; [exact I|] end.
   split; [reflexivity|]. apply mg_put_sim; auto.
 Qed.
 
-Lemma mg_update_sim b st st' a : Sim b st st' -> SimO b (mg_update st a) (mg_update st' a).
+Lemma mg_update_sim b st st' a m : Sim b st st' -> SimO b (mg_update st a m) (mg_update st' a m).
 Proof.
   intros S. unfold mg_update. rewrite (contract_of_sim _ _ _ a S).
   repeat match goal with |- context [if ?c then None else _] => destruct c; [exact I|] end.
@@ -560,6 +560,7 @@ Lemma mg_destroy_sim b st st' a : Sim b st st' -> SimO b (mg_destroy cfg st a) (
 Proof.
   intros S. unfold mg_destroy. rewrite (contract_of_sim _ _ _ a S).
   destruct (negb (mc_present (contract_of st a))); [exact I|].
+  match goal with |- context [if ?c then None else _] => destruct c; [exact I|] end.
   pose proof (block_account_sim b st st' (caddr a) S) as H.
   destruct (block_account cfg st (caddr a)) as [[s1 r1]|], (block_account cfg st' (caddr a)) as [[s1' r1']|];
     simpl in H; try contradiction; [|exact I].
@@ -849,14 +850,14 @@ Proof.
     all: try (rewrite c4; apply (dedup_idem cfg)).
     all: try (unfold gpv_coh; simpl; intros k v; discriminate).
     all: try (intros role; rewrite aget_reinit_ds; symmetry; apply c7).
-    all: try (intros h; symmetry; apply c8).
+    all: try (intros h; rewrite aget_reinit_mg; symmetry; apply c8).
     assert (Hr : (height (A st) + 1) mod csize cfg = 0) by lia.
     rewrite (ce Hr). apply (compute_committee_ext cfg); simpl; auto.
   - constructor; simpl; auto; try discriminate.
     all: try (rewrite c4; apply (dedup_idem cfg)).
     all: try (unfold gpv_coh; simpl; intros k v; discriminate).
     all: try (intros role; rewrite aget_reinit_ds; symmetry; apply c7).
-    all: try (intros h; symmetry; apply c8).
+    all: try (intros h; rewrite aget_reinit_mg; symmetry; apply c8).
     symmetry. apply cm. lia.
 Qed.
 
